@@ -117,6 +117,7 @@ def count_paths(
     interproc: bool = True,
     _memo: Optional[Dict] = None,
     _depth: int = 0,
+    started: bool = False,
 ) -> Dict[Tuple, FrozenSet[int]]:
     """ALL-EXITS counting: for each exit of f, the set of possible numbers of executions
     (0, 1, 2 = 'two or more') of steps satisfying `pred` on paths from `start` (default: entry).
@@ -126,7 +127,7 @@ def count_paths(
     and exit) contribute the callee's own counts on the corresponding exit.
     """
     memo = _memo if _memo is not None else {}
-    key = (f.qual, id(pred), id(start), id(ef))
+    key = (f.qual, id(pred), id(start), id(ef), started)
     if start is None and key in memo:
         return memo[key]
     g = an.cfg(f)
@@ -148,7 +149,7 @@ def count_paths(
             return None
         merged: Dict[Tuple, Set[int]] = {}
         for t in cal.targets:
-            sub = count_paths(an, t, pred, None, ef, True, memo, _depth + 1)
+            sub = count_paths(an, t, pred, None, ef, True, memo, _depth + 1, started)
             for k, v in sub.items():
                 merged.setdefault(k, set()).update(v)
         return {k: frozenset(v) for k, v in merged.items()}
@@ -168,7 +169,7 @@ def count_paths(
                 add = frozenset({0})
             # the step's own execution counts on its normal continuation; a step that raises
             # did not complete (a call that raised did not perform its effect)
-            base_own = own if lab[0] in NORMAL_KINDS else 0
+            base_own = own if (lab[0] in NORMAL_KINDS or started) else 0
             new = {min(2, c + base_own + a) for c in cur for a in add}
             old = state.get(s)
             if old is None:
